@@ -21,6 +21,7 @@ import (
 	"sort"
 	"strconv"
 	"strings"
+	"sync"
 
 	"github.com/moov-io/iso8583"
 	"github.com/moov-io/iso8583/encoding"
@@ -482,6 +483,55 @@ func checkMsgPack(rep *Reporter, c msgCfg, mti string, content map[int]string) {
 	})
 }
 
+func checkConcurrentPack(rep *Reporter, c msgCfg, mti string, content map[int]string) {
+	specT := c.specTree()
+	line := fmt.Sprintf("M %s pack %s #by-8-goroutines", specT.String(), contentTree(mti, content).String())
+	safely(rep, line, func() {
+		spec, ok := impl.MsgSpecOfTree(specT)
+		if !ok {
+			return
+		}
+		m := iso8583.NewMessage(spec)
+		if !impl.SetMsg(m, contentTree(mti, content)) {
+			return
+		}
+		want, err := m.Pack()
+		if err != nil {
+			return
+		}
+		rep.Case(line)
+		const workers, per = 8, 150
+		bad := make([]string, workers)
+		var wg sync.WaitGroup
+		for w := 0; w < workers; w++ {
+			wg.Add(1)
+			go func(w int) {
+				defer wg.Done()
+				defer func() {
+					if x := recover(); x != nil {
+						bad[w] = fmt.Sprintf("panic: %v", x)
+					}
+				}()
+				for k := 0; k < per && bad[w] == ""; k++ {
+					got, err := m.Pack()
+					if err != nil {
+						bad[w] = "Pack fails: " + err.Error()
+					} else if !bytes.Equal(got, want) {
+						bad[w] = fmt.Sprintf("Pack gave %x", got)
+					}
+				}
+			}(w)
+		}
+		wg.Wait()
+		for _, b := range bad {
+			if b != "" {
+				rep.Viol("a message packed by several goroutines at once: the bitmap of a result does not announce its body", line,
+					fmt.Sprintf("sequential Pack %x | concurrent: %s", want, b))
+				return
+			}
+		}
+	})
+}
 
 // ------------------------------------------------------------------ bitmapped composites
 
@@ -1223,6 +1273,13 @@ func runC05(t gen.Tier, r *gen.Rng, rep *Reporter) {
 			}
 			checkMsgPack(rep, c, "0100", content)
 		}
+	}
+	// C''. one message packed by several goroutines at once: every result announces exactly its body
+	// (all of them equal the sequential result; Pack regenerates the bitmap, so two packs must not interleave)
+	for i := 0; i < t.N(25, 400); i++ {
+		c := genCfg(r, false)
+		content := genContentC05(r, c, 6)
+		checkConcurrentPack(rep, c, "0100", content)
 	}
 	// C'. bitmapped composites: subfield numbers inside and beyond the bitmap
 	for i := 0; i < t.N(600, 15000); i++ {
